@@ -291,8 +291,7 @@ DWORD WINAPI reb_server_start(void* args){
         char* request = fgets(buf, BUFSIZE, stream);
         if (!request){
             reb_server_cerror(stream, "Did not get request.");
-            fclose(stream);
-            close(childfd);
+            fclose(stream); // also closes childfd
             continue;
         }
         sscanf(buf, "%s %s %s\n", method, uri, version);
@@ -300,8 +299,7 @@ DWORD WINAPI reb_server_start(void* args){
         /* only support the GET method */
         if (strcasecmp(method, "GET") && strcasecmp(method, "POST")) {
             reb_server_cerror(stream, "Only GET+POST are implemented.");
-            fclose(stream);
-            close(childfd);
+            fclose(stream); // also closes childfd
             continue;
         }
            
@@ -451,8 +449,7 @@ screenshot_finish:
 
         /* clean up */
         fflush(stream);
-        fclose(stream);
-        close(childfd);
+        fclose(stream); // also closes childfd
 
     }
     printf("Server shutting down...\n");
